@@ -1,0 +1,145 @@
+//go:build verif
+
+// Machine-checked contracts for package variable (read by /verif/govc).
+//
+// C17: HTTP header variables obey store laws. net/http.Header and net/textproto.MIMEHeader are not
+// abstracted: their real standard-library bodies (map updates under the canonical key) are
+// executed symbolically. The only abstractions are the string functions: canonicalisation is an
+// uninterpreted idempotent function, strings.Cut is described by its documented contract.
+// The lemma functions are never executed.
+
+package variable
+
+import (
+	"github.com/ysugimoto/falco/v2/interpreter/http"
+	"github.com/ysugimoto/falco/v2/interpreter/value"
+)
+
+//@ extern net/textproto.CanonicalMIMEHeaderKey
+//@   pure
+//@   ensures result == uf("canon", s) && uf("canon", result) == result
+//@ extern strings.Cut
+//@   pure
+//@   ensures found == ufb("contains", s, sep)
+//@   ensures !found ==> before == s && after == ""
+//@ extern strings.CutSuffix
+//@   pure
+//@   ensures found == ufb("hasSuffix", s, suffix)
+//@   ensures !found ==> before == s
+//@ extern (net/http.Header).Get
+//@   inline
+//@ extern (net/http.Header).Set
+//@   inline
+//@ extern (net/http.Header).Del
+//@   inline
+//@ extern (net/http.Header).Add
+//@   inline
+//@ extern (net/textproto.MIMEHeader).Get
+//@   inline
+//@ extern (net/textproto.MIMEHeader).Set
+//@   inline
+//@ extern (net/textproto.MIMEHeader).Del
+//@   inline
+//@ extern (net/textproto.MIMEHeader).Add
+//@   inline
+
+//@ pred plainName(n string) = !ufb("contains", n, ":") && !ufb("hasSuffix", n, "*")
+//@ pred okReq(r *http.Request) = r != nil && r.Request != nil && r.Header != nil && r.headerKeyStore != nil
+//@ pred okResp(r *http.Response) = r != nil && r.Response != nil && r.Header != nil && r.headerKeyStore != nil
+//@ pred sameRead(a *value.String, b *value.String) = a.Value == b.Value && a.IsNotSet == b.IsNotSet
+
+// @ lemma lemma_req_set_get [C17]
+// @   requires okReq(r) && v != nil && plainName(n)
+// @   inline-calls
+// @   ensures [reads-as-set] !v.IsNotSet ==> !g.IsNotSet
+// @   ensures [value-up-to-newline] !v.IsNotSet && !ufb("contains", v.Value, "\n") ==> g.Value == v.Value
+// @   ensures [notset-is-unset] v.IsNotSet ==> g.IsNotSet && g.Value == ""
+func lemma_req_set_get(r *http.Request, n string, v *value.String) (g *value.String) {
+	setRequestHeaderValue(r, n, v)
+	g = getRequestHeaderValue(r, n)
+	return
+}
+
+// @ lemma lemma_req_case_insensitive [C17]
+// @   requires okReq(r) && v != nil && plainName(n1) && plainName(n2) && uf("canon", n1) == uf("canon", n2)
+// @   inline-calls
+// @   ensures [same-header] sameRead(g1, g2)
+func lemma_req_case_insensitive(r *http.Request, n1, n2 string, v *value.String) (g1, g2 *value.String) {
+	setRequestHeaderValue(r, n1, v)
+	g1 = getRequestHeaderValue(r, n1)
+	g2 = getRequestHeaderValue(r, n2)
+	return
+}
+
+// @ lemma lemma_req_unset [C17]
+// @   requires okReq(r) && v != nil && plainName(n1) && plainName(n2) && uf("canon", n1) == uf("canon", n2)
+// @   inline-calls
+// @   ensures [unset-reads-notset] g.IsNotSet && g.Value == ""
+func lemma_req_unset(r *http.Request, n1, n2 string, v *value.String) (g *value.String) {
+	setRequestHeaderValue(r, n1, v)
+	unsetRequestHeaderValue(r, n2)
+	g = getRequestHeaderValue(r, n1)
+	return
+}
+
+// @ lemma lemma_req_other_names_untouched [C17]
+// @   requires okReq(r) && v != nil && plainName(n1) && plainName(n3) && uf("canon", n1) != uf("canon", n3)
+// @   inline-calls
+// @   ensures [frame-set] sameRead(g0, g1)
+// @   ensures [frame-unset] sameRead(g0, g2)
+func lemma_req_other_names_untouched(r *http.Request, n1, n3 string, v *value.String) (g0, g1, g2 *value.String) {
+	g0 = getRequestHeaderValue(r, n3)
+	setRequestHeaderValue(r, n1, v)
+	g1 = getRequestHeaderValue(r, n3)
+	unsetRequestHeaderValue(r, n1)
+	g2 = getRequestHeaderValue(r, n3)
+	return
+}
+
+// @ lemma lemma_resp_set_get [C17]
+// @   requires okResp(r) && v != nil && plainName(n)
+// @   inline-calls
+// @   ensures [reads-as-set] !v.IsNotSet ==> !g.IsNotSet
+// @   ensures [value-up-to-newline] !v.IsNotSet && !ufb("contains", v.Value, "\n") ==> g.Value == v.Value
+// @   ensures [notset-is-unset] v.IsNotSet ==> g.IsNotSet && g.Value == ""
+func lemma_resp_set_get(r *http.Response, n string, v *value.String) (g *value.String) {
+	setResponseHeaderValue(r, n, v)
+	g = getResponseHeaderValue(r, n)
+	return
+}
+
+// @ lemma lemma_resp_case_insensitive [C17]
+// @   requires okResp(r) && v != nil && plainName(n1) && plainName(n2) && uf("canon", n1) == uf("canon", n2)
+// @   inline-calls
+// @   ensures [same-header] sameRead(g1, g2)
+func lemma_resp_case_insensitive(r *http.Response, n1, n2 string, v *value.String) (g1, g2 *value.String) {
+	setResponseHeaderValue(r, n1, v)
+	g1 = getResponseHeaderValue(r, n1)
+	g2 = getResponseHeaderValue(r, n2)
+	return
+}
+
+// @ lemma lemma_resp_unset [C17]
+// @   requires okResp(r) && v != nil && plainName(n1) && plainName(n2) && uf("canon", n1) == uf("canon", n2)
+// @   inline-calls
+// @   ensures [unset-reads-notset] g.IsNotSet && g.Value == ""
+func lemma_resp_unset(r *http.Response, n1, n2 string, v *value.String) (g *value.String) {
+	setResponseHeaderValue(r, n1, v)
+	unsetResponseHeaderValue(r, n2)
+	g = getResponseHeaderValue(r, n1)
+	return
+}
+
+// @ lemma lemma_resp_other_names_untouched [C17]
+// @   requires okResp(r) && v != nil && plainName(n1) && plainName(n3) && uf("canon", n1) != uf("canon", n3)
+// @   inline-calls
+// @   ensures [frame-set] sameRead(g0, g1)
+// @   ensures [frame-unset] sameRead(g0, g2)
+func lemma_resp_other_names_untouched(r *http.Response, n1, n3 string, v *value.String) (g0, g1, g2 *value.String) {
+	g0 = getResponseHeaderValue(r, n3)
+	setResponseHeaderValue(r, n1, v)
+	g1 = getResponseHeaderValue(r, n3)
+	unsetResponseHeaderValue(r, n1)
+	g2 = getResponseHeaderValue(r, n3)
+	return
+}
